@@ -82,7 +82,15 @@ def check(case):
                     fail("different-link-refused", "%s then %s" % (text, other))
         # paths in both directions record the traversal direction
         if True:
-            for pname, segsp, ov, direction in (("pf", "%s%s,%s%s" % (a, oa, b, ob), cg, "+"), ("pr", "%s%s,%s%s" % (b, oracle.inv(ob), a, oracle.inv(oa)), oracle.cigar_complement(cg), "-")):
+            variants = [("pf", "%s%s,%s%s" % (a, oa, b, ob), cg, "+"), ("pr", "%s%s,%s%s" % (b, oracle.inv(ob), a, oracle.inv(oa)), oracle.cigar_complement(cg), "-")]
+            hairpin = a == b and oa != ob
+            if not hairpin:
+                # exactly one of the two overlaps unspecified: the ends alone decide the direction
+                if cg != "*":
+                    variants += [("pf", "%s%s,%s%s" % (a, oa, b, ob), "*", "+"), ("pr", "%s%s,%s%s" % (b, oracle.inv(ob), a, oracle.inv(oa)), "*", "-")]
+                else:
+                    variants += [("pf", "%s%s,%s%s" % (a, oa, b, ob), "2M1I", "+"), ("pr", "%s%s,%s%s" % (b, oracle.inv(ob), a, oracle.inv(oa)), "1D2M", "-")]
+            for pname, segsp, ov, direction in variants:
                 for first in (True, False):
                     lines = segs + ([text] if first else []) + ["P\t%s\t%s\t%s" % (pname, segsp, ov)] + ([] if first else [text])
                     g3 = gfapy.Gfa(lines, vlevel=1)
@@ -92,7 +100,7 @@ def check(case):
                         fail("path-does-not-resolve-to-stored-link:%s:%s" % (direction, "link-first" if first else "path-first"), str(lines))
                     elif lk[0].orient != direction:
                         # self-complementary links (same ends, palindromic cigar) may report either direction
-                        selfc = [a, oa, b, ob, cg] == [b, oracle.inv(ob), a, oracle.inv(oa), oracle.cigar_complement(cg)]
+                        selfc = [a, oa, b, ob] == [b, oracle.inv(ob), a, oracle.inv(oa)] and (cg == oracle.cigar_complement(cg) or "*" in (cg, ov))
                         if not selfc:
                             fail("path-direction-wrong:%s:%s" % (direction, "link-first" if first else "path-first"), "%s got %s" % (lines, lk[0].orient))
     except gfapy.Error as e:
